@@ -477,4 +477,66 @@ def run(chk):
                 chk.violation(r_fr, key, "%s applies net-to-gross to component [%s] of %s: NTG scales the vertical extent, component [2] of a grid-ordered triple" % (f["q"], show(idx), bname), f["file"], n["l"])
             elif bname in permuted:
                 chk.violation(r_fr, key, "%s applies net-to-gross to %s[2] after %s has been permuted into the completion's order: for X/Y completions this scales the extent along the well bore instead of the vertical one (Kh, r0 and CF of a defaulted COMPDAT then deviate from the Peaceman values)" % (f["q"], bname, bname), f["file"], n["l"])
+    # ---- C06.fresh: a defaulting sentinel is set in the iteration that tests it
+    r_fs = chk.rule("C06.fresh", "in the connection-building loops (one iteration per cell of a COMPDAT/COMPTRAJ record), a quantity that is tested against a numeric sentinel and then given its default from the current cell (if (x.r0 < 0) x.r0 = f(cell)) has been assigned earlier in the SAME iteration - its variable is declared in the loop body or an unconditional assignment precedes the test - unless the value is meant to outlive the loop (it is read after it)", floor=4)
+
+    def loc_of(e):
+        """('base', 'base.f.g') of a Ref / Mem chain on a local variable, else None."""
+        e = strip(e)
+        path = []
+        while isinstance(e, dict) and e.get("k") == "Mem" and e.get("b") is not None:
+            path.append(e["n"])
+            e = strip(e["b"])
+        if isinstance(e, dict) and e.get("k") == "Ref" and e.get("d") in ("Var", "Parm"):
+            return e["n"], ".".join([e["n"]] + path[::-1]), e.get("dl")
+        return None
+
+    def assigns(n):
+        if n["k"] == "Bin" and n.get("asg"):
+            return loc_of(n["c"][0])
+        if n["k"] == "OpCall" and n.get("op") in ("=", "+=", "-=", "*=", "/=") and n.get("a"):
+            return loc_of(n["a"][0])
+        return None
+    LOOPS = ("For", "While", "ForRange", "Do")
+    for f in fx.fns:
+        if not f["file"].endswith(WC) or not f.get("body"):
+            continue
+        all_nodes = list(walk(f["body"]))
+        for lp in all_nodes:
+            if lp["k"] not in LOOPS:
+                continue
+            tops = stmt_list(lp["body"])
+            l0, l1 = lp["l"], max([x.get("l", 0) for x in walk(lp["body"])] or [lp["l"]])
+            decl_in = {v["n"] for t in walk(lp["body"]) if t["k"] == "Decl" for v in t["vars"]}
+            goto_pos = [i for i, t in enumerate(tops) if any(x["k"] == "Goto" for x in walk(t))]
+            for ti, t in enumerate(tops):
+                inner_loops = [x for x in walk(t) if x["k"] in LOOPS]
+                skip = set()
+                for il in inner_loops:
+                    skip.update(id(x) for x in walk(il["body"]))
+                for iff in walk(t, skip_lambda=True):
+                    if iff["k"] != "If" or id(iff) in skip or not isinstance(iff.get("cond"), dict):
+                        continue
+                    tested = []
+                    for c in walk(iff["cond"]):
+                        if c["k"] == "Bin" and c.get("op") in ("<", ">", "<=", ">="):
+                            a_, b_ = strip(c["c"][0]), strip(c["c"][1])
+                            for x, y in ((a_, b_), (b_, a_)):
+                                yy = strip(y["c"][0]) if y.get("k") == "Un" and y.get("op") == "-" else y
+                                if yy.get("k") in ("Int", "Flt") and loc_of(x):
+                                    tested.append(loc_of(x))
+                    for base, path, dl in tested:
+                        sets = [x for br in (iff["then"], iff.get("else")) if br for x in walk(br, skip_lambda=True) if assigns(x) and assigns(x)[1] == path]
+                        if not sets:
+                            continue
+                        key = "%s:%s@%d" % (f["q"].split("::")[-1], path, iff["l"])
+                        after = any(x["k"] == "Ref" and x["n"] == base and x.get("dl") == dl and x.get("l", 0) > l1 for x in all_nodes)
+                        fresh = base in decl_in
+                        is_label = t["k"] not in ("If", "Block", "Bin", "Decl") and "Label" in t["k"]
+                        limit = min([ti] + ([g for g in goto_pos] if is_label else []))
+                        pre = [u for u in tops[:limit] if assigns(u) and assigns(u)[1] in (path, base)]
+                        chk.instance(r_fs, key, sample=dict(function=f["q"], quantity=path, test_line=iff["l"], declared_in_iteration=fresh, assigned_before_test=[u["l"] for u in pre], read_after_loop=after))
+                        if not fresh and not pre and not after:
+                            chk.violation(r_fs, key, "%s: `%s` is tested against its sentinel at line %d and defaulted from the current cell, but nothing in the loop body (line %d) sets it before the test and its variable is declared outside the loop: from the second iteration on the test sees the previous cell's value, so the default of the first cell is kept for every later cell of the record" % (f["q"], path, iff["l"], lp["l"]), f["file"], iff["l"])
+
     chk.assumptions += ["dimension table FIELDS/CELL in rules/C06.py (CF and Kh are L^3 in SI, Ke L^2, radii and lengths L, skin and the Peaceman denominator dimensionless); numeric literals are dimension-polymorphic (sentinels such as -1.0)"]
